@@ -40,6 +40,22 @@ func (r *rec) next() uint32 {
 	return d
 }
 
+// extreme source: only boundary words, in every order (sign bit set / clear, all ones, zero), then random after 64 draws
+type extreme struct {
+	rng *vhlib.Rng
+	k   int
+}
+
+var extremeWords = []uint32{0, 0x80000000, 0xffffffff, 0x7fffffff, 1, 0x80000001, 0xfffffffe}
+
+func (e *extreme) next() uint32 {
+	e.k++
+	if e.k > 64 {
+		return uint32(e.rng.U64())
+	}
+	return extremeWords[e.rng.Intn(len(extremeWords))]
+}
+
 var interestingN = []int64{1, 2, 3, 4, 5, 6, 7, 8, 9, 10, 15, 16, 17, 31, 32, 33, 63, 64, 65, 100, 127, 128, 129, 255, 256, 257,
 	1000, 1023, 1024, 1025, 65535, 65536, 65537, 1<<24 - 1, 1 << 24, 1<<24 + 1, 1<<30 - 1, 1 << 30, 1<<30 + 1,
 	1<<31 - 2, 1<<31 - 1, 1431655765, 1431655766, 2147483629, 1073741827, 0, -1, -2, -100, math.MinInt32}
@@ -184,7 +200,10 @@ func main() {
 	}
 	fastrand.Uint32 = orig
 
-	// ---- functions that draw from the runtime directly: range observations ----
+	// ---- functions that draw from the runtime directly: range observations. Half of the calls run with the adversarial
+	// recording source installed in fastrand.Uint32: the code as written never consults it for these functions, but a
+	// rewrite that routes a 63-bit function through the 32-bit helpers does, and then the extreme words (0, 2^31, 2^32-1
+	// in every order) reach its sign and carry handling; the observation is judged by range only, either way ----
 	nr := 3000
 	if o.Thorough() {
 		nr = 40000
@@ -202,6 +221,11 @@ func main() {
 		var vu uint64
 		var call, label string
 		uns := false
+		adversarial := i%2 == 1
+		if adversarial {
+			ex := &extreme{rng: rng.Fork()}
+			fastrand.Uint32 = ex.next
+		}
 		p, _ := vhlib.Recover(func() {
 			switch rng.Intn(6) {
 			case 0:
@@ -239,7 +263,11 @@ func main() {
 		if p {
 			obs = "OPanic"
 		}
-		emit(call, label, false, nil, obs, true, map[string]interface{}{"call": call, "obs": obs})
+		fastrand.Uint32 = orig
+		if adversarial {
+			label += "/adversarial-source"
+		}
+		emit(call, label, false, nil, obs, true, map[string]interface{}{"call": call, "obs": obs, "adversarial_source": adversarial})
 	}
 	// ---- concurrent callers on all Ps ----
 	procs := runtime.GOMAXPROCS(0)
